@@ -158,7 +158,7 @@ fn emit<C: W>(ctx: &mut Ctx, kind: &str, line: String, res: &C::P, spec: &WP) {
     let got = a_wp::<C>(&res.to_affine());
     ctx.case(&format!("{}-{}", C::TAG, kind), true, &line, &big::tok_w(&got));
     if got != *spec || !bool::from(res.is_on_curve()) && spec.is_some() {
-        ctx.oracle_fail(
+        crate::fail(ctx, 
             &format!("C11:{}", line),
             "curve operation disagrees with the affine chord-and-tangent law over big integers",
             json!({"op": line, "impl": big::tok_w(&got), "law": big::tok_w(spec), "raw": raw_tok::<C>(res)}),
@@ -306,7 +306,7 @@ where
     ctx.case(&format!("{t}-const"), true, &format!("{t} b"), &big::tok(&C::P::b().to_e()));
     ctx.case(&format!("{t}-const"), true, &format!("{t} b:affine"), &big::tok(&C::A::b().to_e()));
     if !bool::from(C::P::a().is_zero()) || !bool::from(C::A::a().is_zero()) {
-        ctx.oracle_fail(&format!("C11:{t}:a"), "curve constant a is not 0", json!({}));
+        crate::fail(ctx, &format!("C11:{t}:a"), "curve constant a is not 0", json!({}));
     }
     if !bool::from(C::P::identity().is_identity())
         || !bool::from(C::A::identity().is_identity())
@@ -315,7 +315,7 @@ where
         || !bool::from(C::P::identity().to_affine().is_identity())
         || !bool::from(C::A::identity().to_curve().is_identity())
     {
-        ctx.oracle_fail(&format!("C11:{t}:identity"), "identity constructors / conversions disagree", json!({}));
+        crate::fail(ctx, &format!("C11:{t}:identity"), "identity constructors / conversions disagree", json!({}));
     }
 
     // unary
@@ -346,7 +346,7 @@ where
             Some(((jx * zi.square()).to_e(), (jy * zi.square() * zi).to_e()))
         };
         if jac_aff != pw || back.map(|q| q == p) != Some(true) {
-            ctx.oracle_fail(
+            crate::fail(ctx, 
                 &format!("C11:{t}:jacobian {pt}"),
                 "jacobian_coordinates / new_jacobian are not consistent with Jacobian coordinates (X/Z², Y/Z³) of the point",
                 json!({"point": pt, "raw": raw, "jacobian_coordinates": jt}),
@@ -357,13 +357,13 @@ where
         let (ce, pe) = (bool::from(p.ct_eq(&n)), p == n);
         ctx.case(&format!("{t}-eq"), true, &format!("{t} eqraw {raw} {}", raw_tok::<C>(&n)), &format!("{} {}", ce as u8, pe as u8));
         if !ce || !pe {
-            ctx.oracle_fail(&format!("C11:{t}:eq-normalised {pt}"), "a point is not equal (ct_eq / ==) to its own normalisation", json!({"raw": raw}));
+            crate::fail(ctx, &format!("C11:{t}:eq-normalised {pt}"), "a point is not equal (ct_eq / ==) to its own normalisation", json!({"raw": raw}));
         }
         // affine view
         let on = bool::from(pa.is_on_curve());
         ctx.case(&format!("{t}-oncurve"), true, &format!("{t} oncurve {pt}"), &format!("{}", on as u8));
         if !on || !bool::from(p.is_on_curve()) || !big::w_on_curve(&e.f, &e.a, &e.b, &pw) {
-            ctx.oracle_fail(&format!("C11:{t}:oncurve {pt}"), "a point produced by the API is not on the curve", json!({"raw": raw}));
+            crate::fail(ctx, &format!("C11:{t}:oncurve {pt}"), "a point produced by the API is not on the curve", json!({"raw": raw}));
         }
         let (x, y) = C::acoords(&pa);
         let xy = format!("{}/{}", big::tok(&x.to_e()), big::tok(&y.to_e()));
@@ -375,18 +375,18 @@ where
             None => false,
         };
         if fx != Some(pa) || !co_ok {
-            ctx.oracle_fail(&format!("C11:{t}:coordinates {pt}"), "from_xy / coordinates are not mutually consistent", json!({"point": pt}));
+            crate::fail(ctx, &format!("C11:{t}:coordinates {pt}"), "from_xy / coordinates are not mutually consistent", json!({"point": pt}));
         }
         emit::<C>(ctx, "endo", format!("{t} endo {pt}"), &p.endo(), &pw.as_ref().map(|(x, y)| (e.f.mul(x, &<C::B as ff::WithSmallOrderMulGroup<3>>::ZETA.to_e()), y.clone())));
         if p.endo().endo().endo() != p {
-            ctx.oracle_fail(&format!("C11:{t}:endo {pt}"), "endo³ is not the identity map", json!({}));
+            crate::fail(ctx, &format!("C11:{t}:endo {pt}"), "endo³ is not the identity map", json!({}));
         }
         if let Some(tf) = C::torsion_free(&pa) {
             let law = big::w_mul(&e.f, &e.a, &C::order(), &pw).is_none();
             ctx.case(&format!("{t}-torsion"), true, &format!("{t} tf {pt}"), &format!("{}", tf as u8));
             ctx.count(&format!("{t}-torsion-free:{tf}"));
             if tf != law {
-                ctx.oracle_fail(&format!("C11:{t}:tf {pt}"), "is_torsion_free disagrees with r·P by the affine law", json!({"point": pt}));
+                crate::fail(ctx, &format!("C11:{t}:tf {pt}"), "is_torsion_free disagrees with r·P by the affine law", json!({"point": pt}));
             }
         }
     }
@@ -404,7 +404,7 @@ where
                 let xy = format!("{}/{}", big::tok(&g.0.to_e()), big::tok(&y.to_e()));
                 ctx.case(&format!("{t}-fromxy"), true, &format!("{t} fromxy {xy}"), &fx.map_or("none".into(), |a| a_tok::<C>(&a)));
                 if fx.is_some() {
-                    ctx.oracle_fail(&format!("C11:{t}:fromxy {xy}"), "from_xy accepts a point off the curve", json!({}));
+                    crate::fail(ctx, &format!("C11:{t}:fromxy {xy}"), "from_xy accepts a point off the curve", json!({}));
                 }
                 continue;
             }
@@ -416,7 +416,7 @@ where
             let jt = format!("{}/{}/{}", big::tok(&x.to_e()), big::tok(&y.to_e()), big::tok(&z.to_e()));
             ctx.case(&format!("{t}-jacobian"), true, &format!("{t} newjac {jt}"), &nj.map_or("none".into(), |q| p_tok::<C>(&q)));
             if fx.is_some() || nj.is_some() {
-                ctx.oracle_fail(&format!("C11:{t}:offcurve {xy}"), "a checked coordinate constructor accepts random coordinates", json!({}));
+                crate::fail(ctx, &format!("C11:{t}:offcurve {xy}"), "a checked coordinate constructor accepts random coordinates", json!({}));
             }
         }
         let z0: Option<C::A> = C::A::from_xy(C::B::ZERO, C::B::ZERO).into();
@@ -480,7 +480,7 @@ where
         ctx.case(&format!("{t}-eq"), true, &format!("{t} eqraw {} {}", raw_tok::<C>(&p), raw_tok::<C>(&q)), &format!("{} {}", ce as u8, pe as u8));
         let law = pw == qw;
         if ce != law || pe != law || bool::from(pa.ct_eq(&qa)) != law || (pa == qa) != law {
-            ctx.oracle_fail(&format!("C11:{t}:eq {pt} {qt}"), "equality (==, ct_eq; projective or affine) differs from equality of the affine values", json!({"p": raw_tok::<C>(&p), "q": raw_tok::<C>(&q), "ct_eq": ce, "eq": pe}));
+            crate::fail(ctx, &format!("C11:{t}:eq {pt} {qt}"), "equality (==, ct_eq; projective or affine) differs from equality of the affine values", json!({"p": raw_tok::<C>(&p), "q": raw_tok::<C>(&q), "ct_eq": ce, "eq": pe}));
         }
     }
 
@@ -550,7 +550,7 @@ where
         for (i, p) in pts.iter().enumerate() {
             ctx.case(&format!("{t}-batch-normalize"), true, &format!("{t} norm:batch[{i}/{len}] {}", raw_tok::<C>(p)), &a_tok::<C>(&out[i]));
             if out[i] != p.to_affine() {
-                ctx.oracle_fail(&format!("C11:{t}:batch_normalize {}", raw_tok::<C>(p)), "batch_normalize differs from to_affine", json!({"index": i, "len": len}));
+                crate::fail(ctx, &format!("C11:{t}:batch_normalize {}", raw_tok::<C>(p)), "batch_normalize differs from to_affine", json!({"index": i, "len": len}));
             }
         }
     }
@@ -582,11 +582,11 @@ where
             let canon = p.to_bytes().as_ref() == b;
             let on = big::w_on_curve(&e.f, &e.a, &e.b, &pw);
             if !canon || !on || du != d {
-                ctx.oracle_fail(&format!("C11:{t}:dec {h}"), "checked compressed decoder accepts an off-curve or non-canonical encoding", json!({"bytes": h, "decoded": big::tok_w(&pw), "reencoded": hex_bytes(p.to_bytes().as_ref())}));
+                crate::fail(ctx, &format!("C11:{t}:dec {h}"), "checked compressed decoder accepts an off-curve or non-canonical encoding", json!({"bytes": h, "decoded": big::tok_w(&pw), "reencoded": hex_bytes(p.to_bytes().as_ref())}));
             }
             if C::TAG == "g1" || C::TAG == "g2" {
                 if big::w_mul(&e.f, &e.a, &C::order(), &pw).is_some() {
-                    ctx.oracle_fail(&format!("C11:{t}:dec-subgroup {h}"), "checked compressed decoder accepts a point outside the prime-order subgroup", json!({"bytes": h}));
+                    crate::fail(ctx, &format!("C11:{t}:dec-subgroup {h}"), "checked compressed decoder accepts a point outside the prime-order subgroup", json!({"bytes": h}));
                 }
             }
         }
@@ -604,7 +604,7 @@ where
             let canon = p.to_uncompressed().as_ref() == b;
             let on = big::w_on_curve(&e.f, &e.a, &e.b, &pw);
             if !on {
-                ctx.oracle_fail(&format!("C11:{t}:decu {h}"), "checked uncompressed decoder accepts an off-curve point", json!({"bytes": h}));
+                crate::fail(ctx, &format!("C11:{t}:decu {h}"), "checked uncompressed decoder accepts an off-curve point", json!({"bytes": h}));
             }
             if !canon {
                 // stable key: the defect is a property of the decoder, not of the particular string
@@ -637,7 +637,7 @@ where
         let backu: Option<C::A> = if in_sub { C::A::from_uncompressed(&u).into() } else { C::A::from_uncompressed_unchecked(&u).into() };
         let x_zero = a_wp::<C>(&pa).map_or(false, |(x, _)| e.f.is_zero(&x));
         if (back != Some(pa) || backu != Some(pa)) && !x_zero {
-            ctx.oracle_fail(&format!("C11:{t}:roundtrip {pt}"), "decode(encode(P)) != P", json!({"point": pt, "compressed": hex_bytes(c.as_ref()), "compressed_ok": back == Some(pa), "uncompressed_ok": backu == Some(pa)}));
+            crate::fail(ctx, &format!("C11:{t}:roundtrip {pt}"), "decode(encode(P)) != P", json!({"point": pt, "compressed": hex_bytes(c.as_ref()), "compressed_ok": back == Some(pa), "uncompressed_ok": backu == Some(pa)}));
         }
         if x_zero {
             ctx.count(&format!("{t}-roundtrip-skipped:x=0 (not encodable by design of the wrapped codec)"));
